@@ -403,6 +403,9 @@ pub enum NextItem {
     /// of nested conditionals
     EndIfNested(usize),
     EndIfBlockNested(usize),
+    /// Definition of macro which wasn't finished at the end of included file,
+    /// goes on in the including file
+    EndMacroContinued,
 }
 
 /// Directive of line which can't be parsed: conditionals and definitions of macros
@@ -448,9 +451,11 @@ fn skip<'a>(
     context: &ParseContext,
     ni: NextItem,
 ) -> (Option<(usize, &'a str)>, bool, Option<NextItem>) {
+    let macro_continued = ni == NextItem::EndMacroContinued;
     let (ni, mut scoup_count) = match ni {
         NextItem::EndIfNested(count) => (NextItem::EndIf, count),
         NextItem::EndIfBlockNested(count) => (NextItem::EndIfBlock, count),
+        NextItem::EndMacroContinued => (NextItem::EndMacro, 0),
         other => (other, 0),
     };
     let mut pending_elif = false;
@@ -464,7 +469,17 @@ fn skip<'a>(
             let mut ret = None;
             if ni == NextItem::EndMacro {
                 let name = context.macros.name.borrow().clone();
-                let mut items = vec![];
+                // lines of the body which were collected in the included file
+                let mut items = if macro_continued {
+                    context
+                        .macros
+                        .macroses
+                        .borrow_mut()
+                        .remove(&name)
+                        .unwrap_or_default()
+                } else {
+                    vec![]
+                };
                 while let Some((line_num, line)) = iter.next() {
                     if let Some(Ok(item)) = parse_line(line) {
                         if let Document::DirectiveLine(_, directive, _) = item {
@@ -472,6 +487,7 @@ fn skip<'a>(
                                 || directive == Directive::EndM
                             {
                                 ret = iter.next();
+                                finished = true;
                                 break;
                             }
                         }
@@ -541,6 +557,7 @@ fn skip<'a>(
                 unfinished = match other {
                     NextItem::EndIf => Some(NextItem::EndIfNested(scoup_count)),
                     NextItem::EndIfBlock => Some(NextItem::EndIfBlockNested(scoup_count)),
+                    NextItem::EndMacro => Some(NextItem::EndMacroContinued),
                     _ => None,
                 };
             }
